@@ -902,7 +902,7 @@ func ruleC07Fmt(p *Prog, a *Anchors, r *Report) {
 					}
 				}
 			case *ssa.Return:
-				if s, isC := constString(x.Results[0]); isC {
+				if s, isC := constString(res(x, 0)); isC {
 					if s == "True" {
 						hasTrue = true
 					}
@@ -968,7 +968,7 @@ func ruleC07Lex(p *Prog, a *Anchors, r *Report) {
 	want := map[string]string{"stateIdentifier": "tokenIdentifierChars", "stateNumber": "tokenDigits", "stateString": "\"'"}
 	seen := map[string]bool{}
 	for _, ret := range returnsOf(f) {
-		v := ret.Results[0]
+		v := res(ret, 0)
 		if ct, isCT := v.(*ssa.ChangeType); isCT {
 			v = ct.X
 		}
